@@ -458,7 +458,13 @@ pub fn get_best_move_until_stop(
     continue_running: &AtomicBool,
     max_depth: Option<u8>,
 ) -> Option<Move> {
-    let mut found_move = None;
+    // Until the first iteration completes, fall back on a legal move, so that a stop
+    // request or a time budget shorter than depth 1 still yields one
+    let mut found_move = {
+        let mut moves = ArrayVec::new();
+        game.clone().get_moves(&mut moves, true);
+        moves.first().copied()
+    };
 
     let mut history = [0; 64 * 12];
 
